@@ -170,8 +170,8 @@ theorem only_receiver_removes (c : Cfg) (s : St) (hn : (s.awaiting.map (·.hash)
     have e := history_core c s r
     simp only [step] at hgone
     rw [e.1] at hgone; exact absurd ht hgone
-  | balance r =>
-    have e := balance_core c s r
+  | balance r lo =>
+    have e := balance_core c s r lo
     simp only [step] at hgone
     rw [e.1] at hgone; exact absurd ht hgone
   | saved r => exact absurd ht hgone
@@ -248,7 +248,7 @@ theorem history_authenticated (c : Cfg) (s : St) (r : SignedHash) :
     intro h; exact absurd rfl h
 
 /-- **Balance**: only when the signed data is the caller's own address and the signature is by its key. -/
-theorem balance_authenticated (c : Cfg) (s : St) (r : SignedHash) (h : (balance c s r).2 = .ok) :
+theorem balance_authenticated (c : Cfg) (s : St) (r : SignedHash) (lo : Bool) (h : (balance c s r lo).2 = .ok) :
     r.data = r.address ∧ verifySH c r = true := by
   unfold balance throttle at h
   simp only at h
